@@ -230,6 +230,7 @@ structure Req where
   userID : Bytes         -- the `UserID_t` array
   nick : Bytes           -- the `Nickname_t` array
   uid : Nat
+  callerNp : Nat := 0    -- `user.NumPosts` of the caller's in-memory record (possibly behind the stored one)
   role : Bool            -- may keep an announcement tag (see `isTnAllowedWith`)
   anon : Bool            -- BRD_ANONYMOUS
   isOpen : Bool          -- `board.IsOpenBRD()`: the article is copied to ALLPOST
@@ -316,8 +317,25 @@ def crossRecord (q : Req) (e : Env) (money : Nat) : Bytes :=
   else
     recordImage e.name e.xmtime q.userID e.date e.xtitle (storedMulti money) 1
 
-def bumpUser (us : List (Bytes × Nat)) (id : Bytes) : List (Bytes × Nat) :=
-  us.map fun u => if u.1 == id then (u.1, u.2 + 1) else u
+/-- `pwcuIncNumPost` on (stored counter, counter in the caller's record): the stored record is re-read
+(`pwcuStart`), ITS counter is incremented and written back (`pwcuEnd`); the caller's record receives the new
+stored value.  The caller's old value plays no part. -/
+def incNumPost (stored _caller : Nat) : Nat × Nat := (stored + 1, stored + 1)
+
+/-- the variant that increments the caller's copy and writes that back (a seeded defect; kept as a witness). -/
+def incNumPostFromCaller (_stored caller : Nat) : Nat × Nat := (caller + 1, caller + 1)
+
+def bumpUser (us : List (Bytes × Nat)) (id : Bytes) (caller : Nat) : List (Bytes × Nat) :=
+  us.map fun u => if u.1 == id then (u.1, (incNumPost u.2 caller).1) else u
+
+def numPostsOf (us : List (Bytes × Nat)) (u : Bytes) : Option Nat := (us.find? (·.1 == u)).map (·.2)
+
+/-- `user.NumPosts` of the caller's record after an accepted post. -/
+def callerAfter (s : List (Bytes × Nat)) (id : Bytes) (anony : Bool) (caller : Nat) : Nat :=
+  if anony then caller
+  else match numPostsOf s id with
+    | some n => (incNumPost n caller).2
+    | none => caller                      -- pwcuStart fails; the error is ignored
 
 /-- add an article file (the rename) and its index record (AppendRecord) to a board directory. -/
 def BoardSt.publish (b : BoardSt) (name content record : Bytes) : BoardSt × C05.Out :=
@@ -357,7 +375,7 @@ def post (s : St) (q : Req) (e : Env) : M (St × Outcome) :=
     let boards1 := updBoard boards0 q.board BoardSt.setTotal          -- cache.SetBTotal(bid)
     let xrecord := crossRecord q e money
     let boards2 := if q.isOpen then updBoard boards1 ALLPOST fun x => x.crossPublish e.name fe.1 xrecord else boards1
-    let users' := if useAnony q.anon then s.users else bumpUser s.users q.userID
+    let users' := if useAnony q.anon then s.users else bumpUser s.users q.userID q.callerNp
     pure ({ boards := boards2, users := users', postLog := log' },
           .posted { idx := idx, title := title, record := record, content := fe.1, money := money,
                     logRec := logRec, xrecord := xrecord })
@@ -381,6 +399,59 @@ def runPosts : St → List (Req × Env) → M St
   | s, (q, e) :: rest => do
     let r ← post s q e
     runPosts r.1 rest
+
+/-! ### sessions: the same user loaded as several independent in-memory records -/
+
+/-- a loaded user record (`ptt.InitCurrentUser`): whose it is and the NumPosts it holds. -/
+structure Session where
+  name : Bytes
+  userID : Bytes
+  numPosts : Nat
+  deriving Repr
+
+structure SSt where
+  st : St
+  sessions : List Session
+  deriving Repr
+
+inductive SOp where
+  | load (sess user : Bytes)                 -- keep a fresh copy of the stored record under a session name
+  | postAs (sess : Bytes) (q : Req) (e : Env) -- `ptt.NewPost` with the kept record (its `callerNp` replaces `q`'s)
+  | create (q : Req) (e : Env)               -- `bbs.CreateArticle`: reloads the record first
+  deriving Repr
+
+def findSession (ss : List Session) (n : Bytes) : Option Session := ss.find? (·.name == n)
+
+def setSession (ss : List Session) (x : Session) : List Session :=
+  x :: ss.filter (fun y => !(y.name == x.name))
+
+def stepS (s : SSt) : SOp → M (SSt × Option Outcome)
+  | .load sess user =>
+    match numPostsOf s.st.users user with
+    | some n => pure ({ s with sessions := setSession s.sessions ⟨sess, user, n⟩ }, none)
+    | none => pure (s, none)
+  | .postAs sess q e =>
+    let q' := match findSession s.sessions sess with
+      | some x => { q with callerNp := x.numPosts }
+      | none => q
+    do
+      let r ← post s.st q' e
+      let ss := match r.2, findSession s.sessions sess with
+        | .posted _, some x =>
+          setSession s.sessions { x with numPosts := callerAfter s.st.users q'.userID (useAnony q'.anon) q'.callerNp }
+        | _, _ => s.sessions
+      pure ({ st := r.1, sessions := ss }, some r.2)
+  | .create q e => do
+    -- InitCurrentUser: the caller's record is the stored one
+    let q' := { q with callerNp := (numPostsOf s.st.users q.userID).getD 0 }
+    let r ← createArticle s.st q' e
+    pure ({ s with st := r.1 }, some r.2)
+
+def runS : SSt → List SOp → M SSt
+  | s, [] => pure s
+  | s, op :: rest => do
+    let r ← stepS s op
+    runS r.1 rest
 
 /-- the id `bbs.NewArticleSummaryFromRaw` returns for the new entry. -/
 def articleID (e : Env) : Bytes := C13.toArticleID (copyInto C13.FNLEN e.name)
